@@ -446,5 +446,28 @@ _ADDENDA = {
     "C20": (" Every resolve case is asked again over the REST endpoints (GET .../resolve and the payload route of local.NewHttpService in front of the "
             "same service) with the same reference."),
 }
-for _k, _v in _ADDENDA.items():
+# Additions of the fifth campaign (DESIGN.md section 15).
+_ADDENDA5 = {
+    "C02": " A critical task whose device goes to ERROR by itself 60 ms before the request stays a target of the command and refuses it (the request must fail).",
+    "C04": (" In-process engine: reconciliation answers (status updates with reason RECONCILIATION for known tasks, running or still starting up) as an operation: "
+            "no KILL for a task a live environment holds; a deployment that completes while another teardown's KILL call is pending and then fails."),
+    "C05": " Agents with so few ports that the tasks placed there use every one of them (the last ports of an offer taken exactly).",
+    "C06": " TestKillOutcomes: after a request with refused KILL calls the following clean-up of unowned tasks must send a KILL to every survivor.",
+    "C07": " A quarter of the callers go through an apricot server (remote.NewServer / remote.NewService in front of the Service), as a core in apricot:// mode does.",
+    "C10": (" A START vetoed in front of everything it does (critical call at before_START_ACTIVITY-3) is not a run: what the previous run left stays as it was; a run "
+            "whose tasks fail to start is closed like any run ending in error (both end timestamps)."),
+    "C11": (" Concurrent mode with yield patterns drawn by rapid (the environment-id callback in every update prologue yields or sleeps 20-80 us); "
+            "TestConcurrentDeployment: five tasks report ACTIVE at once, 3000 repetitions per shard, every role ACTIVE at quiescence."),
+    "C13": " A channel name declared on the aggregator and again on the role below (the nearest wins); non-critical tasks (an unmatched target fails the configuration all the same).",
+    "C14": (" (B) the task template carries a default that is an expression over the role's variables (kx: \"X{{ it }}\", resolved per task); the inner iterator "
+            "ranges over an expression of the outer iteration variable."),
+    "C17": (" (5) a basic/hook command that exits by itself is reported (BASIC_TASK_TERMINATED or a final status) within 2 s, also when it leaves processes "
+            "behind that hold its output (forked children inherit stdout/stderr). Fixed: a second kill while the first waits for the device to exit; a FairMQ "
+            "device stuck in an intermediate state (BIND/CONNECT refused, roll-back refused) at kill."),
+    "C18": (" Reconnection point 'deploying' (tasks accepted, TASK_RUNNING 2.5 s away: the answers say TASK_STAGING; no KILL, the creation completes). "
+            "TestFirstRegistrationRepeated: 25 first registrations on fresh worlds per shard, the framework id is in the store within a second."),
+    "C20": (" Candidates may exist with empty content (they exist all the same). TestProcess: entries in a subdirectory of the role directory that include their "
+            "siblings by short name, decoys of the same names one level up."),
+}
+for _k, _v in list(_ADDENDA.items()) + list(_ADDENDA5.items()):
     CHECKS[_k]["rule"] += _v
